@@ -804,8 +804,16 @@ def run(idx, rep, tier):
     for _c in ast.walk(_frp.node):
         if isinstance(_c, ast.Call) and any(
                 dotted(a) == 'self._finish_recv_packet' for a in _c.args):
-            for _kw in _c.keywords:
-                if _kw.arg == 'is_async':
+            _idx = [i for i, a in enumerate(_c.args)
+                    if dotted(a) == 'self._finish_recv_packet'][0]
+            _vals = [kw.value for kw in _c.keywords if kw.arg == 'is_async']
+            if not _vals and len(_c.args) > _idx + 3:
+                _vals = [_c.args[_idx + 3]]       # (pkttype, seq, is_async)
+            for _val in _vals:
+                class _KW:      # same shape as a keyword
+                    value = _val
+                _kw = _KW
+                if True:
                     _n17 += 1
                     rep.check(isinstance(_kw.value, ast.Constant) and
                               _kw.value.value is True, 'C02.R17',
